@@ -89,6 +89,9 @@ def name_pool(tier):
     return out
 
 
+QUICK_POOL = set(name_pool('quick'))
+
+
 def check_schema(schema, tier, acc=None):
     viol = []
     text = lvs_ref.render(schema)
@@ -141,7 +144,7 @@ def check_schema(schema, tier, acc=None):
         if got != want:
             bad(f'check-differs|library={got}|reference={want}', f'check(/{"/".join(pt)}, /{"/".join(kt)}) = {got}, the schema text says {want}')
             break
-        for label, c2 in others:
+        for label, c2 in (others if (tier == 'quick' or (pt in QUICK_POOL and kt in QUICK_POOL)) else ()):
             try:
                 g3 = bool(c2.check(list(pn), list(kn)))
             except Exception as e:  # noqa
